@@ -1006,6 +1006,29 @@ def scan_part(res, rng, n):
                                           'model': repr(mp)[:600], 'real': repr(rp)[:600], 'source': src})
             elif rp[0] == 'ok' and sum(1 for t in rt if t[0] != 'T') >= 2 and len(src) < 200:
                 res.nontrivial.add(json.dumps(['scan', lang, src]))
+    # custom delimiters of NewTextTemplate: the parameterised scanner (Model/TmplScanD.lean) against finditer of
+    # the expression compiled for these delimiters and against the event stream of _parse
+    dcases = [R.gen_raw_delims(rng) for _ in range(n)]
+    for (dl, src), ans in zip(dcases, R.model_answers_d(dcases)):
+        res.count('delims:%s' % ' '.join(dl))
+        if ans is None:
+            res.count('delims-scan:outside-side-condition')
+            continue
+        mt, mp = ans
+        rt = R.real_tokens_d(dl, src)
+        rp = R.real_parse_d(dl, src)
+        res.evaluations += 1
+        res.streams['text-scan-tokens-delims'] = res.streams.get('text-scan-tokens-delims', 0) + 1
+        if mt != rt:
+            res.disagreements.append({'stream': 'text-scan-tokens-delims', 'case': {'lang': 'newtext', 'delims': list(dl), 'source': src},
+                                      'model': repr(mt)[:600], 'real': repr(rt)[:600], 'source': src})
+        if mp is None:
+            res.count('delims-scan:unmodelled')
+            continue
+        res.streams['text-scan-parse-delims'] = res.streams.get('text-scan-parse-delims', 0) + 1
+        if mp != rp:
+            res.disagreements.append({'stream': 'text-scan-parse-delims', 'case': {'lang': 'newtext', 'delims': list(dl), 'source': src},
+                                      'model': repr(mp)[:600], 'real': repr(rp)[:600], 'source': src})
     toks = [R.gen_ctoks(rng) for _ in range(n)]
     for t, src in zip(toks, R.print_new(toks)):
         res.count('check:scanprint')
